@@ -377,12 +377,13 @@ def traceback_line_rule(ctx, sym, rule):
     ux = ctx.repo.module(UEXC)
     init = ux.func('ExpandedTraceback.__init__')
     ctx.analysed_function(ux, init)
-    for fname, offsets, want in (('answer.py', {'answer.py': 10}, 14), ('answer.py', {}, 4),
-                                 ('helper.py', {'answer.py': 10}, 4)):
+    for fname, offsets, want, depth in (('answer.py', {'answer.py': 10}, 14, 10), ('answer.py', {}, 4, 10),
+                                        ('helper.py', {'answer.py': 10}, 4, 10), ('answer.py', {}, 4, 0),
+                                        ('answer.py', {'answer.py': 10}, 14, 70), ('answer.py', {}, 4, 1500)):
         # the traceback entries are (filename, lineno, ...) summaries of where each frame *raised*
-        # (a deep one: eleven calling frames above the raising one, as in a recursive student function)
+        # (deep ones: `depth` calling frames above the raising one, as in a recursive student function)
         entries = [Obj('FrameSummary', filename='outer.py', lineno=1, __getitem__=None)] + \
-                  [Obj('FrameSummary', filename=fname, lineno=20 + i) for i in range(10)] + \
+                  [Obj('FrameSummary', filename=fname, lineno=20 + i % 7) for i in range(depth)] + \
                   [Obj('FrameSummary', filename=fname, lineno=4)]
         for e in entries:
             e.attrs['method:__getitem__'] = (lambda ee: (lambda i: [ee.attrs['filename'], ee.attrs['lineno']][i]))(e)
@@ -401,12 +402,14 @@ def traceback_line_rule(ctx, sym, rule):
         _, raised = symexec.run(fd, init, [Obj('exception'), ('T', 'E', tb), False, [], offsets, [fname], ['a'], {}],
                                 bound_self=me, what='ExpandedTraceback.__init__')
         ctx.check(raised is None and me.attrs.get('line_number') == want, rule,
-                  'traceback:line_number[%s,%r]' % (fname, offsets), ux, init,
-                  "an error raised on line 4 of %s (the frame has since moved on to line 99) with section offsets %r "
-                  "gets line_number %r, expected %d" % (fname, offsets, me.attrs.get('line_number'), want),
+                  'traceback:line_number[%s,%r%s]' % (fname, offsets, '' if depth == 10 else ',depth %d' % depth), ux, init,
+                  "an error raised on line 4 of %s, %d calls deep (the frame has since moved on to line 99), with section "
+                  "offsets %r gets line_number %r, expected %d" % (fname, depth, offsets, me.attrs.get('line_number'),
+                                                                  want),
                   "an error on file line 4 inside section 1 is located on line 3 by the runtime feedback; a failing "
                   "statement inside try/finally is located on the cleanup line")
-        ctx.check(me.attrs.get('line_offsets') is offsets, rule, 'traceback:stores-offsets[%s,%r]' % (fname, offsets), ux,
+        ctx.check(me.attrs.get('line_offsets') is offsets, rule,
+                  'traceback:stores-offsets[%s,%r%s]' % (fname, offsets, '' if depth == 10 else ',depth %d' % depth), ux,
                   init, "line offsets are not kept by the traceback", "frames cannot be shifted")
 
 
